@@ -1,3 +1,4 @@
+pub mod crash;
 pub mod fault;
 pub mod grammar;
 pub mod hist;
